@@ -7,6 +7,7 @@ decision prefix).  Nothing here guesses: anything the proxies cannot express rai
 EngineError, which the runner reports as *inconclusive* (exit 2), never as success.
 """
 import time
+import os
 import z3
 
 CW = 8  # character width: the string domain is Latin-1 (code points 0..255)
@@ -44,7 +45,9 @@ class Path:
 
 
 class Explorer:
-    def __init__(self, solver_timeout_ms=10000, max_paths=200000, deadline=None):
+    def __init__(self, solver_timeout_ms=None, max_paths=200000, deadline=None):
+        if solver_timeout_ms is None:
+            solver_timeout_ms = int(os.environ.get("VF_SOLVER_TIMEOUT_MS", "10000"))
         self.solver = z3.Solver()
         self.solver.set("timeout", solver_timeout_ms)
         self.timeout_ms = solver_timeout_ms
@@ -1057,7 +1060,10 @@ class SInt:
     def ubv(self, n):
         """the value as an n-bit unsigned vector (caller guarantees 0 <= value < 2**n)"""
         if self.lo < 0 or self.hi >= (1 << n):
-            raise EngineError("value does not fit %d unsigned bits" % n)
+            # the tracked interval does not show it: ask whether the path condition does (validity query, not a fork)
+            out = z3.Or(self._cmp_expr(0, "lt"), self._cmp_expr((1 << n) - 1, "gt"))
+            if EX is None or EX.is_sat(out):
+                raise EngineError("value does not fit %d unsigned bits" % n)
         if self.w >= n:
             return z3.Extract(n - 1, 0, self.e)
         return z3.SignExt(n - self.w, self.e)
